@@ -528,7 +528,7 @@ func localeSweep(t *testing.T) {
 	if sw.Skip() {
 		return
 	}
-	vals := []string{"-", "", "ru_RU.KOI8-R", "en_US.UTF-8", "C", "POSIX", "de_DE.ISO8859-15@euro", "ja_JP.EUC-JP", "el_GR.ISO8859-7", "en_US"}
+	vals := []string{"-", "", "ru_RU.KOI8-R", "en_US.UTF-8", "C", "POSIX", "de_DE.ISO8859-15@euro", "ja_JP.EUC-JP", "el_GR.ISO8859-7", "en_US", "C.UTF-8", "POSIX.ISO8859-1"}
 	item := 0
 	for _, a := range vals {
 		for _, b := range vals {
@@ -543,7 +543,7 @@ func localeSweep(t *testing.T) {
 			}
 		}
 	}
-	pbt.Exhaustive("LC_ALL x LC_CTYPE x LANG each in {unset, empty, ru_RU.KOI8-R, en_US.UTF-8, C, POSIX, de_DE.ISO8859-15@euro, ja_JP.EUC-JP, el_GR.ISO8859-7, en_US}: CharacterSet() and the charset of the bytes written follow the POSIX precedence")
+	pbt.Exhaustive("LC_ALL x LC_CTYPE x LANG each in {unset, empty, ru_RU.KOI8-R, en_US.UTF-8, C, POSIX, de_DE.ISO8859-15@euro, ja_JP.EUC-JP, el_GR.ISO8859-7, en_US, C.UTF-8, POSIX.ISO8859-1}: CharacterSet() and the charset of the bytes written follow the POSIX precedence")
 }
 
 func TestProp(t *testing.T) {
